@@ -56,6 +56,13 @@ enum Val {
     NS(NewS),
 }
 
+/// wrappers for positions the value grammar itself does not have
+#[derive(Serialize, Deserialize, PartialEq, Debug, Clone)]
+enum Wr {
+    Poly(Vec<(Val, i32)>, bool),
+    Seg(Box<Val>, i32),
+}
+
 const STRS: &[&str] = &["a", "two words", "", "x: y", "- z", "multi\nline", "é", "null", "1", "~", "#c", "k", "tail ", "[f]"];
 
 /// shapes covered by recorded findings are generated only when asked for (their witnesses are checked separately)
@@ -164,7 +171,10 @@ fn round_trip<T: Serialize + serde::de::DeserializeOwned + PartialEq + std::fmt:
     // scalar, or a sequence under compact_list_indent -- is not indented under the `?`
     let dbg = format!("{v:?}");
     let has_empty = dbg.contains("[]") || dbg.contains("{}");
-    let multi_line_key = dbg.contains("KMap") && (dbg.contains("Str(\"multi\\nline\")") || (ov.compact && (dbg.contains("Pair(") || dbg.contains("Seq(["))));
+    // ... or a sequence written directly after `? ` whose later items are aligned by indent_step / compact_list_indent
+    // rather than under the first item (root maps keyed by a tuple / a sequence)
+    let raw_seq_key = what.starts_with("root map keyed by");
+    let multi_line_key = (dbg.contains("KMap") && (dbg.contains("Str(\"multi\\nline\")") || (ov.compact && (dbg.contains("Pair(") || dbg.contains("Seq(["))))) || (raw_seq_key && (ov.compact || ov.step != 2));
     let legacy = |c: &str| {
         if ov.step == 1 {
             // (F46) with an indentation step of 1 a block nested under an inline key after a dash is not deeper than that key
@@ -221,7 +231,15 @@ fn all_positions(ctx: &mut Ctx, v: &Val, ov: &Ov) {
         && round_trip(ctx, "option", &Some(v.clone()), ov)
         && round_trip(ctx, "tuple", &(v.clone(), 5, v.clone()), ov)
         && round_trip(ctx, "struct", &St { a: v.clone(), b: Some(v.clone()), c: vec![v.clone()] }, ov)
-        && round_trip(ctx, "nested sequences", &vec![vec![v.clone()], vec![], vec![v.clone(), v.clone()]], ov);
+        && round_trip(ctx, "nested sequences", &vec![vec![v.clone()], vec![], vec![v.clone(), v.clone()]], ov)
+        // sequences directly inside sequence items, below a mapping key / three levels deep / in a tuple variant
+        && round_trip(ctx, "field of nested sequences", &BTreeMap::from([("name".to_string(), vec![]), ("rows".to_string(), vec![vec![v.clone(), v.clone()], vec![v.clone()]])]), ov)
+        && round_trip(ctx, "three-level sequences", &vec![vec![vec![v.clone(), v.clone()]], vec![vec![v.clone()], vec![v.clone()]]], ov)
+        && round_trip(ctx, "tuple variant with a sequence of tuples", &Wr::Poly(vec![(v.clone(), 1), (v.clone(), 2)], true), ov)
+        && round_trip(ctx, "struct variant as a mapping value", &BTreeMap::from([("shape".to_string(), Wr::Seg(Box::new(v.clone()), 7))]), ov)
+        // composite keys at the root of the document
+        && round_trip(ctx, "root map keyed by a tuple", &BTreeMap::from([((1, 2), v.clone()), ((3, 4), Val::I(5))]), ov)
+        && round_trip(ctx, "root map keyed by a sequence", &BTreeMap::from([(vec![1, 2], v.clone())]), ov);
     let _ = ok;
 }
 
@@ -323,7 +341,7 @@ pub fn run(ctx: &mut Ctx) {
     }
 
     // ---- S
-    let steps: &[usize] = if quick { &[2, 4] } else { &[1, 2, 3, 4, 8] };
+    let steps: &[usize] = if quick { &[2, 3, 4] } else { &[1, 2, 3, 4, 8] };
     let ovs = all_ovs(steps);
     let mut vals: Vec<Val> = Vec::new();
     // every shape once at depth 1 around every leaf kind
